@@ -126,10 +126,17 @@ impl Prop for C18Prop {
             Sub { name: "boundary", kind: SubKind::Enum { count: boundary_set().len() as u64 } },
             Sub { name: "random", kind: SubKind::Random { cases: tier.pick(1_000_000, 100_000_000), len: 6 } },
             Sub { name: "random-exp", kind: SubKind::Random { cases: tier.pick(1_000_000, 100_000_000), len: 6 } },
+            Sub { name: "after-failures", kind: SubKind::Enum { count: failing_templates(Ev::Num).len() as u64 } },
             Sub { name: "from-i64", kind: SubKind::Random { cases: tier.pick(200_000, 10_000_000), len: 6 } },
         ]
     }
-    fn gen_enum(&self, _sub: &str, idx: u64, _tier: Tier) -> Option<Case> {
+    fn gen_enum(&self, sub: &str, idx: u64, _tier: Tier) -> Option<Case> {
+        if sub == "after-failures" {
+            // the conversion is a pure function of the double: it must not change after failing eval_number calls on the thread
+            let mut case = Case::new(Ev::Num, format!("{:#018x}", 42.0f64.to_bits()), Val::NI(0));
+            case.aux = vec!["after".into(), failing_templates(Ev::Num).get(idx as usize)?.clone()];
+            return Some(case);
+        }
         let b = boundary_set()[idx as usize];
         Some(Case::new(Ev::Num, format!("{:#018x}", b), Val::NI(0)))
     }
@@ -160,7 +167,23 @@ impl Prop for C18Prop {
             }
         }
     }
-    fn check(&self, _sub: &str, case: &Case, sc: &mut ShardCtx) -> Result<(), Failure> {
+    fn check(&self, sub: &str, case: &Case, sc: &mut ShardCtx) -> Result<(), Failure> {
+        if sub == "after-failures" {
+            if let Some(t) = case.aux.get(1) {
+                for _ in 0..3 {
+                    let _ = api::eval(Ev::Num, t, &Val::NI(5));
+                }
+                sc.evals(3);
+                for v in [42.0f64, -7.0, 0.0, 3e9, 9007199254740992.0, -0.0, 2.5, 1e300] {
+                    let c2 = Case::new(Ev::Num, format!("{:#018x}", v.to_bits()), Val::NI(0));
+                    self.check("boundary", &c2, sc).map_err(|mut f| {
+                        f.detail = format!("after three failing calls of eval_number({:?}) on this thread", t);
+                        f
+                    })?;
+                }
+                return Ok(());
+            }
+        }
         sc.evals(1);
         if case.aux.first().map(|s| s == "i64").unwrap_or(false) {
             let v: i64 = case.input.parse().map_err(|_| Failure::new("harness/bad-case", "", ""))?;
